@@ -17,6 +17,7 @@ mod cjson;
 mod signed;
 mod importers;
 mod wire;
+mod statement;
 
 pub fn err_name(e: &in_toto::Error) -> String {
     let d = format!("{:?}", e);
@@ -70,6 +71,7 @@ fn main() {
             "signed_bytes" => signed::run(sc),
             "importers" => importers::run(sc),
             "wire" => wire::run(sc),
+            "statement" => statement::run(sc),
             _ => json!({"outcome": "unsupported-kind"}),
         });
         out.push(r);
